@@ -288,6 +288,36 @@ func (e *Enc) checkBackEdge(f *frame, li *loopInfo, from *ssa.BasicBlock, st *St
 			}
 		}
 	}
+	// probes: values a replay needs (loop-carried variables before and after the iteration, "probe" clauses)
+	var probes []Probe
+	for name, v := range oldVars {
+		for i, t := range flatten(v) {
+			probes = append(probes, Probe{fmt.Sprintf("old.%s.%d", name, i), t})
+		}
+		if nv, ok := envBody.vars[name]; ok {
+			for i, t := range flatten(nv) {
+				probes = append(probes, Probe{fmt.Sprintf("%s.%d", name, i), t})
+			}
+		}
+	}
+	for _, c := range clauses {
+		if c.Kind != "probe" {
+			continue
+		}
+		func() {
+			defer func() { recover() }()
+			v := e.evalSpec(c.Expr, envBody)
+			for i, t := range flatten(v) {
+				probes = append(probes, Probe{fmt.Sprintf("%s.%d", c.Text, i), t})
+			}
+		}()
+	}
+	nObl := len(e.obls)
+	defer func() {
+		for _, o := range e.obls[nObl:] {
+			o.Probes = append(o.Probes, probes...)
+		}
+	}()
 	for _, c := range clauses {
 		switch c.Kind {
 		case "invariant":
@@ -310,7 +340,7 @@ func (e *Enc) checkBackEdge(f *frame, li *loopInfo, from *ssa.BasicBlock, st *St
 				oe.vars[k] = v
 			}
 			oe.st = f.headSt[b]
-			oe.blk = nil
+			oe.blk, oe.atHead = b, true
 			old := e.evalSpec(c.Expr, &oe)
 			goal := fmt.Sprintf("(and (<= 0 %s) (< %s %s))", old.T, cur.T, old.T)
 			e.oblige("decreases", fmt.Sprintf("%s/dec%d", tag, kd), from.Instrs[len(from.Instrs)-1].Pos(), goal, c.Props, c.Text)
@@ -345,6 +375,9 @@ func (e *Enc) resolveLocal(f *frame, b *ssa.BasicBlock, name string, atHead bool
 							}
 						}
 						if dr.IsAddr {
+							if pt, ok := dr.X.Type().Underlying().(*types.Pointer); ok && isLibStruct(pt.Elem()) {
+								return v, true // library object: the reference itself
+							}
 							loc := v.Loc
 							if loc == nil {
 								pt := dr.X.Type().Underlying().(*types.Pointer)
